@@ -3,7 +3,9 @@ package validator
 import (
 	"bytes"
 	"encoding/json"
+	"errors"
 	e "github.com/aml-org/amf-custom-validator/pkg/events"
+	"io"
 )
 
 func ProcessInput(jsonldText string, debug bool, receiver *chan e.Event) (normalized any, err error) {
@@ -16,6 +18,11 @@ func ProcessInput(jsonldText string, debug bool, receiver *chan e.Event) (normal
 	var input any
 	if err := decoder.Decode(&input); err != nil {
 		return nil, err
+	}
+	// the data is one JSON document: text after it (a YAML source that happens to start with a JSON value,
+	// a second document) means the text is not what was read from it
+	if _, err := decoder.Token(); err != io.EOF {
+		return nil, errors.New("unexpected text after the JSON document")
 	}
 	dispatchEvent(e.NewEvent(e.InputDataParsingDone), receiver)
 
